@@ -56,7 +56,12 @@ def children(ctx, n, recursive, names=False):
     with k.installed():
         me = psutil.Process(caller)
         n0 = k.naccess_total
-        got = ctx.guard("no-exception", me.children, recursive=recursive)
+        k.access_budget = n0 + 40 * n * n + 200
+        try:
+            got = ctx.guard("no-exception", me.children, recursive=recursive, expect=(simk.AccessBudgetExceeded,))
+        except simk.AccessBudgetExceeded as e:
+            ctx.prove(False, "terminates", detail=f"children(): {e}")
+            return
         cost = k.naccess_total - n0
     got_pids = [c.pid for c in got]
     ctx.observe("children", got_pids)
@@ -166,9 +171,14 @@ def parents(ctx, n):
         steps += 1
         if steps > n + 1:
             ctx.assume(False)       # a cycle made entirely of same-tick processes: excluded (see assumptions)
+    k.access_budget = 40 * n * n + 200
     with k.installed():
         me = psutil.Process(caller)
-        got = ctx.guard("no-exception", me.parents)
+        try:
+            got = ctx.guard("no-exception", me.parents, expect=(simk.AccessBudgetExceeded,))
+        except simk.AccessBudgetExceeded as e:
+            ctx.prove(False, "terminates", detail=f"parents(): {e}")
+            return
     ctx.observe("parents", [p.pid for p in got])
     ctx.prove([p.pid for p in got] == chain, "parents-chain", detail=f"{[p.pid for p in got]} vs {chain}")
 
@@ -192,8 +202,8 @@ def recycled_caller(ctx, which):
     ctx.prove(alive is False and exc is not None and exc.pid == caller, "recycled-caller-NoSuchProcess", detail=f"{which}: is_running={alive} exc={exc!r}")
 
 
-@harness("C05.after_iter", quick=[dict(which=w) for w in ("parent", "parents", "children", "children_r")], thorough=[dict(which=w, n=n) for w in ("parent", "parents", "children", "children_r") for n in (3, 4)])
-def after_iter(ctx, which, n=3):
+@harness("C05.after_iter", quick=[dict(which=w) for w in ("parent", "parents", "children", "children_r")] + [dict(which=w, clock=True) for w in ("parent", "children")], thorough=[dict(which=w, n=n) for w in ("parent", "parents", "children", "children_r") for n in (3, 4)])
+def after_iter(ctx, which, n=3, clock=False):
     """the answers describe the process table as it is NOW, whatever psutil was asked before: first process_iter(attrs=[...]) fills
     its cache (objects with create_time / ppid already evaluated), then one PID other than the caller's is recycled by a new process
     (fresh start ticks and parent, both symbolic), then the tree is queried"""
@@ -210,6 +220,13 @@ def after_iter(ctx, which, n=3):
         ctx.assume(ctx.any([ctx.eq(new_pp, q) for q in pids] + [ctx.eq(new_pp, UNLISTED)]))
         st[victim], pp[victim] = new_start, new_pp
         k.files[f"/proc/{victim}/stat"] = simk.stat_record(k, victim, b"other", b"S", {4: new_pp, 22: new_start})
+        if clock:
+            # the system clock is stepped (the kernel's btime line changes; nobody's start ticks do) and, optionally, somebody asks
+            # psutil.boot_time(): who is older than whom does not depend on either
+            nb = ctx.int("btime_after_step", 10**5, 2 * 10**6)
+            k.files["/proc/stat"] = b"cpu  1 2 3 4 5 6 7 8 9 10\ncpu0 1 2 3 4 5 6 7 8 9 10\nbtime " + k.num(nb) + b"\n"
+            if ctx.flag("boot_time_called"):
+                psutil.boot_time()
         me = me_cached if ctx.flag("use_cached_object") else psutil.Process(caller)
         if which in ("children", "children_r"):
             got = ctx.guard("no-exception", me.children, recursive=(which == "children_r"))
